@@ -80,7 +80,10 @@ def describe(tier):
             "three_rows": "every permutation of every 3-subset of each style (coordinates descending along the natural order); every ordered triple of 4 intervals"
             + (" (6 intervals in thorough)" if t else "")
             + "; two-chromosome tables in every order",
-            "four_rows": "every permutation of every 4-subset of each style; every ordered quadruple of 4 intervals; mixed-style triples" if t else "not in quick",
+            "four_rows": "every permutation of every 4-subset of each style and of the mixed-style list (also its 3-subsets); every ordered quadruple of 4 intervals; "
+            "two rows: every ordered pair of names of the whole alphabet"
+            if t
+            else "not in quick",
             "values": "every float of the alphabet in every float column, every int in every int column (offsets cycle with the row index)",
             "seg_samples": "reader side: 1 and 2 samples for every table, 4 for " + ("every table" if t else "every 8th table") + "; export/import: 1..4 samples cycling over the tables",
             "chain_depth": 4 if t else 2,
@@ -196,10 +199,23 @@ def four_row_tables():
             rows = [(c, desc[k][0], desc[k][1]) for k, c in enumerate(comb)]
             for perm in itertools.permutations(rows):
                 out.append([[r[0], r[1], r[2], lab(i)] for i, r in enumerate(perm)])
-    for comb in itertools.combinations(MIXED, 3):
-        rows = [(c, desc[k][0], desc[k][1]) for k, c in enumerate(comb)]
-        for perm in itertools.permutations(rows):
-            out.append([[r[0], r[1], r[2], lab(i)] for i, r in enumerate(perm)])
+    for n in (3, 4):
+        for comb in itertools.combinations(MIXED, n):
+            rows = [(c, desc[k][0], desc[k][1]) for k, c in enumerate(comb)]
+            for perm in itertools.permutations(rows):
+                out.append([[r[0], r[1], r[2], lab(i)] for i, r in enumerate(perm)])
+    return out
+
+
+def cross_style_pairs():
+    """thorough: every ordered pair of names of the whole alphabet (never one chromosome under two spellings)."""
+    out = []
+    for c1, c2 in itertools.permutations(ALL_NAMES, 2):
+        if F.is_canonical(c1) and F.chrom_rank(c1) == F.chrom_rank(c2):
+            continue
+        out.append([[c1, 10, 100, "A"], [c2, 10, 100, "-"]])
+        out.append([[c1, 10, 100, "A"], [c2, 0, 2, "-"]])
+        out.append([[c1, 0, 2, "A"], [c2, 10, 100, "-"]])
     return out
 
 
@@ -207,7 +223,7 @@ def tables(tier):
     t = tier == "thorough"
     out = one_row_tables(t) + two_row_tables() + three_row_tables(t)
     if t:
-        out += four_row_tables()
+        out += cross_style_pairs() + four_row_tables()
     return out
 
 
@@ -222,6 +238,8 @@ def writer_tables(tier):
         if len({r[0] for r in rows if not F.is_canonical(r[0])}) > 1:
             continue
         s = sorted_case_rows(rows)
+        if len(s) >= 3:  # labels were dealt by input position: deal them by sorted position instead
+            s = [[r[0], r[1], r[2], lab(i)] for i, r in enumerate(s)]
         k = repr(s)
         if k not in seen:
             seen.add(k)
